@@ -9,7 +9,7 @@ if ! git apply "$PATCH"; then echo "patch does not apply"; exit 2; fi
 trap 'git -C /repo checkout -- . ; git -C /repo clean -fdq -- rodbus ffi integration 2>/dev/null; /verif/check --build >/dev/null 2>&1' EXIT
 cd /verif
 for id in "$@"; do
-    out=$(VERIF_EVIDENCE_DIR=/tmp/verif-mutant-evidence VERIF_SCALE=${VERIF_SCALE:-1} ./check "$id" --tier quick 2>&1)
+    out=$(VERIF_EVIDENCE_DIR=/tmp/verif-mutant-evidence VERIF_SCALE=${VERIF_SCALE:-1} timeout ${MUTANT_TIMEOUT:-900} ./check "$id" --tier quick 2>&1)
     code=$?
     echo "$id exit=$code $(echo "$out" | grep -E '^violation|^INCONCLUSIVE' | head -2 | cut -c1-300)"
 done
